@@ -87,6 +87,11 @@ def body(shard, *choices):
         for e in w.emits:
             if not e.done:
                 if r.t.kind == "zip2":
+                    node = r.t.nodes.get("zip")
+                    if node is not None:
+                        buf = node.buffers.get(e.src)
+                        if buf is not None and len(buf) <= node.maxsize:
+                            vd.add("emit-blocked-although-within-bound@%s" % name)
                     continue
                 vd.add("emit-never-completed@%s" % name)
     else:
@@ -117,6 +122,8 @@ def templates(tier):
                 out.append(dict(base, template="map_async", n=n, out_of_order=True))
                 if awaiting:
                     out.append(dict(base, template="zip", n=n, items=3 if q else 4))
+                if n == 1:
+                    out.append(dict(base, template="zip3", n=1, items=3))
             out.append(dict(base, template="buffer+direct", n=1))
             out.append(dict(base, template="map+buffer+map", n=2))
             out.append(dict(base, template="map_async", n=2, out_of_order=True, slow_sink=True))
@@ -133,8 +140,9 @@ def obligations(tier):
                                          "await" if sh["awaiting"] else "blind", steps)
         if sh.get("slow_sink"):
             nm += "/slow-sink"
-        obls.append({"name": nm, "body": "body", "pre": "pre", "shard": sh,
-                     "types": ["int"] * steps, "budget": 400 if q else 2400})
+        st = steps - 1 if (sh["template"] == "zip3" and q) else steps
+        obls.append({"name": nm.replace("steps=%d" % steps, "steps=%d" % st), "body": "body", "pre": "pre",
+                     "shard": sh, "types": ["int"] * st, "budget": 400 if q else 2400})
     try:
         from harness import c03_block
         obls.extend(c03_block.obligations(tier))
